@@ -61,6 +61,19 @@ func (m *C14) OnCall(e *sim.Env, c *sim.Call) {
 			}
 			return
 		}
+		if p == "/custom/pos/account_balance" && c.QReq.Height == 0 && e.H == 0 {
+			e.Count("c14.custom_balance_queries_before_first_commit_incl_refused")
+		}
+		if p == "/custom/pos/account_balance" && c.Panic == "" && c.ResQuery.Code == 0 && c.QReq.Height == 0 && e.H == 0 {
+			// nothing is committed yet (between InitChain and the first Commit): the genesis balances exist only as
+			// uncommitted writes, a query must not report them
+			e.Count("c14.custom_balance_queries_before_first_commit")
+			got := strings.Trim(strings.TrimSpace(string(c.ResQuery.Value)), "\"")
+			if got != "0" && got != "" {
+				e.Violate("C14", "custom-query-not-committed-state/before-first-commit", fmt.Sprintf("%s before the first Commit returned %s (uncommitted genesis state)", p, got), c)
+			}
+			return
+		}
 		if strings.HasPrefix(p, "/custom/") && c.Panic == "" && c.QReq.Height != 0 {
 			// a module query for an explicit height that is pruned or does not exist yet is refused: it is not answered
 			// from another height
